@@ -131,6 +131,10 @@ def _one_post(w: World, hops: Dict[str, Any], k: int, ctype: Optional[str], hdr_
                       invalid_params_reply=bool(peer_codes and -32602 in peer_codes), **ctx)
             res.raised = e   # excluded from the comparisons below
             continue
+        if getattr(res, 'replies_written', None) == 0:
+            w.violate('C18.no_http_reply', f'{name}: the handler returned a response object but no HTTP reply was written '
+                      f'for this request (Content-Type {ctype!r}, body kind {body_kind})', **ctx)
+            continue
         if res.raised is not None:
             w.violate('C18.raised', f'{name}: the integration raised {type(res.raised).__name__} instead of answering '
                       f'(Content-Type {ctype!r})', exc=type(res.raised).__name__, **ctx)
